@@ -3,9 +3,11 @@
 
    [run fx init acts] ranges over every interleaving of any number of Stop calls, Send
    calls (first contact included), inbound connections, peer closes, deliveries,
-   time-outs and handler steps of network/router.go (Net/RouterClose.v); fx = true is the
-   code with the planned repair of F11 (a connection whose set-up fails is closed by the
-   set-up thread), fx = false the pinned code.
+   time-outs and handler steps of network/router.go (Net/RouterClose.v); fx : fixes selects
+   the repairs: f11 fx (a connection whose set-up fails is closed by the set-up thread;
+   landed) and f43 fx (accepted connections are tracked from the start of the Listen
+   callback until it returns, Stop closes them and waits for the callbacks); mkFx false
+   false is the pinned code.
    [crun fx_ts fx_ov (cinit insts) acts] ranges over every interleaving of Server.Close
    (after Router.Stop: websocket stop, Overlay.Close, treeStorage.Close, database close)
    with the tree store's removal timers, instances that finish, messages that refresh a
@@ -23,8 +25,8 @@ Print Assumptions c10_invariants.
 
 (* repaired code: when every call has returned and every goroutine has exited, every
    connection ever dialled or accepted is closed and the wait group is zero *)
-Theorem c10_all_closed : forall acts s,
-  run true init acts = Some s -> quiescent s = true ->
+Theorem c10_all_closed : forall f4 acts s,
+  run (mkFx true f4) init acts = Some s -> quiescent s = true ->
   (forall c k, nth_error (conns s) c = Some k -> lopen k = false) /\ wg s = 0.
 Proof. exact all_closed. Qed.
 Print Assumptions c10_all_closed.
@@ -46,7 +48,7 @@ Proof. exact abandoned_conn_refuted. Qed.
 Print Assumptions c10_abandoned_conn_refuted.
 
 Theorem c10_witnesses_closed_when_fixed : forall acts, In acts [witness_out; witness_in; witness_after] ->
-  exists s, run true init acts = Some s /\ quiescent s = true /\ open_conns s = [].
+  exists s, run (mkFx true false) init acts = Some s /\ quiescent s = true /\ open_conns s = [].
 Proof. exact witnesses_closed_when_fixed. Qed.
 Print Assumptions c10_witnesses_closed_when_fixed.
 
@@ -61,6 +63,56 @@ Theorem c10_registered_closed_at_return : forall fx acts s,
   (forall c k, nth_error (conns s) c = Some k -> live (hd k) = false).
 Proof. exact registered_closed_at_return. Qed.
 Print Assumptions c10_registered_closed_at_return.
+
+(* F43: without the negotiating set an accepted connection whose peer has not identified
+   itself is still open, its callback still blocked, when Stop returns (even with F11 repaired) *)
+Theorem c10_silent_inbound_refuted :
+  exists s k, run (mkFx true false) init witness_silent = Some s /\ stop_returned s = true /\
+              nth_error (conns s) 0 = Some k /\ lopen k = true /\ setup k = IRecvId.
+Proof. exact silent_inbound_refuted. Qed.
+Print Assumptions c10_silent_inbound_refuted.
+
+(* with it that Stop cannot return before the callback has ended *)
+Theorem c10_silent_inbound_fixed :
+  run (mkFx true true) init witness_silent = None /\
+  exists s, run (mkFx true true) init
+              [AIncoming 1; ABegin 0; ACallStop; AHostStop 0; ACloseAll 0; ARecvIdFail 0; AEnd 0; AWait 0] = Some s /\
+            stop_returned s = true /\ quiescent s = true /\ open_conns s = [].
+Proof. exact silent_inbound_fixed. Qed.
+Print Assumptions c10_silent_inbound_fixed.
+
+(* both repairs, NO hypothesis on pending set-ups: at the instant Stop returns no handler
+   and no Listen callback past beginNegotiation is alive, and a connection can only be
+   open if its set-up thread has not yet reached its first test of the closed flag
+   (a dialling Send before registerConnection, a callback before beginNegotiation) ... *)
+Theorem c10_closed_at_return_fixed : forall acts s,
+  run (mkFx true true) init acts = Some s -> stop_returned s = true ->
+  (forall c k, nth_error (conns s) c = Some k -> live (hd k) = false /\ neg k = false) /\
+  (forall c k, nth_error (conns s) c = Some k -> lopen k = true ->
+               setup k = OSendId \/ setup k = ORegister \/ setup k = IAccept).
+Proof. exact closed_at_return_fixed. Qed.
+Print Assumptions c10_closed_at_return_fixed.
+
+(* ... and that test refuses and closes it *)
+Theorem c10_refused_after_close : forall s c k,
+  closed s = true -> nth_error (conns s) c = Some k ->
+  (setup k = IAccept ->
+   exists s' k', step (mkFx true true) s (ABegin c) = Some s' /\ nth_error (conns s') c = Some k' /\
+                 lopen k' = false /\ setup k' = SetupErr /\ wg s' = wg s) /\
+  (setup k = ORegister \/ setup k = IRegister ->
+   exists s' k', step (mkFx true true) s (ARegister c) = Some s' /\ nth_error (conns s') c = Some k' /\
+                 lopen k' = false /\ setup k' = SetupErr /\ wg s' = wg s).
+Proof. exact refused_after_close. Qed.
+Print Assumptions c10_refused_after_close.
+
+(* a connection accepted before host.Stop returned whose callback starts after the closed
+   flag is set is refused and closed *)
+Example c10_arrival_during_stop :
+  exists s, run (mkFx true true) init
+              [AIncoming 1; ACallStop; AHostStop 0; ACloseAll 0; AWait 0; ABegin 0] = Some s /\
+            stop_returned s = true /\ quiescent s = true /\ open_conns s = [] /\ wg s = 0.
+Proof. exact arrival_during_stop. Qed.
+Print Assumptions c10_arrival_during_stop.
 
 (* no Dispatch action is enabled once a Stop has returned, and no continuation of the run
    ever adds to the dispatch log *)
@@ -78,7 +130,7 @@ Print Assumptions c10_no_dispatch_after.
 (* once the closed flag is set the number of running handlers never grows *)
 Theorem c10_no_handler_starts_after_close : forall fx acts s a s',
   run fx init acts = Some s -> closed s = true -> step fx s a = Some s' ->
-  count_live (conns s') <= count_live (conns s).
+  count_busy (conns s') <= count_busy (conns s).
 Proof. exact no_handler_starts_after_close. Qed.
 Print Assumptions c10_no_handler_starts_after_close.
 
@@ -124,7 +176,7 @@ Proof. exact stop_idempotent. Qed.
 Print Assumptions c10_idempotent.
 
 Example c10_reachable_example :
-  exists s, run true init example_run = Some s /\ stop_returned s = true /\ quiescent s = true /\
+  exists s, run (mkFx true true) init example_run = Some s /\ stop_returned s = true /\ quiescent s = true /\
             dispatched s = [(0, 7)] /\ senders s = [NDone Err] /\ open_conns s = [].
 Proof. exact example_reachable. Qed.
 Print Assumptions c10_reachable_example.
@@ -190,14 +242,14 @@ Print Assumptions c10_checker_server_iff.
 (* repaired model: in every interleaving, once a Stop has returned and everything has
    ended, the model's own observation passes the checker; the pinned model fails it on the
    F11 witnesses, on clause 2 exactly *)
-Theorem c10_model_passes_checker : forall acts s,
-  run true init acts = Some s -> stop_returned s = true -> quiescent s = true ->
+Theorem c10_model_passes_checker : forall f4 acts s,
+  run (mkFx true f4) init acts = Some s -> stop_returned s = true -> quiescent s = true ->
   check_router (obs_of_state s) = [].
 Proof. exact model_passes_checker. Qed.
 Print Assumptions c10_model_passes_checker.
 
 Theorem c10_pinned_fails_checker : forall acts, In acts [witness_out; witness_in; witness_after] ->
-  exists s, run false init acts = Some s /\ check_router (obs_of_state s) = [2].
+  exists s, run (mkFx false false) init acts = Some s /\ check_router (obs_of_state s) = [2].
 Proof. exact pinned_fails_checker. Qed.
 Print Assumptions c10_pinned_fails_checker.
 
@@ -280,15 +332,15 @@ Print Assumptions c10_concurrent_close_final_state.
    wakes Start() up and completes, the second is left blocked on closeitChannel in a state
    with no enabled action *)
 Theorem c10_concurrent_close_check_then_act_refuted :
-  exists s, krun true true true (kinit true init 0 2) cta_witness = Some s /\
+  exists s, krun true true (mkFx true true) (kinit true init 0 2) cta_witness = Some s /\
             callers s = [KRet Ok; KSendPc] /\ start s = StReturned /\ sent s = 1 /\
-            forall a, kstep true true true s a = None.
+            forall a, kstep true true (mkFx true true) s a = None.
 Proof. exact conc_check_then_act_refuted. Qed.
 Print Assumptions c10_concurrent_close_check_then_act_refuted.
 
 Example c10_concurrent_close_example :
-  krun false true true (kinit true init 0 2) [KStartArrive; KLockRead 0; KLockRead 1] = None /\
-  exists s, krun false true true (kinit true init 0 2)
+  krun false true (mkFx true true) (kinit true init 0 2) [KStartArrive; KLockRead 0; KLockRead 1] = None /\
+  exists s, krun false true (mkFx true true) (kinit true init 0 2)
                  ([KStartArrive; KLockRead 0; KSend 0; KClear 0; KLockRead 1]) = Some s /\
             callers s = [KStopCall; KStopCall] /\ flag s = false.
 Proof. exact conc_witness_original. Qed.
